@@ -65,8 +65,10 @@ Definition smean_ok (xs : list Q) (ws : option (list Q)) (st : Z) (o : xreal) : 
   | Some w =>
       match xs with
       | [] => st = 0%Z /\ o = XNaN
-      | _ => nonneg_weights (combine xs w) -> 0 < wsum_w (combine xs w) ->       (* total weight 0: not compared *)
-             st = 0%Z /\ obs_near (tol_wmean xs) (wmean_def (combine xs w)) o
+      | _ => st = 0%Z /\
+             (wsum_w (combine xs w) == 0 -> o = XNaN) /\                          (* nothing carries weight: NaN *)
+             (nonneg_weights (combine xs w) -> 0 < wsum_w (combine xs w) ->
+                obs_near (tol_wmean xs) (wmean_def (combine xs w)) o)
       end
   end.
 (* weighted Variance / StdDev: panic("not implemented") *)
@@ -237,19 +239,24 @@ Proof.
 Qed.
 
 Lemma smean_sound xs ws sorted st o :
-  (match ws with Some w => forallb (fun w => Qeq_bool w 0) w && negb (length xs =? 0)%nat | None => false end
-   || f_close (match ws with Some _ => tol_wmean xs | None => tol_mean xs end) (sample_mean (mkSample xs ws sorted)) st o) = true ->
+  f_close (match ws with Some _ => tol_wmean xs | None => tol_mean xs end) (sample_mean (mkSample xs ws sorted)) st o = true ->
   smean_ok xs ws st o.
 Proof.
   intro H. unfold smean_ok. destruct ws as [w|].
   - destruct xs as [|x t] eqn:E.
-    + cbn in H. rewrite Bool.andb_false_r in H. cbn in H. breflect. split; [assumption | now apply is_nan_true].
-    + rewrite <- E in *. intros NN Pos. apply Bool.orb_true_iff in H. destruct H as [H|H].
-      * exfalso. breflect. rewrite (allzero_wsum xs w H) in Pos. lra.
-      * destruct (wmean_eq xs w sorted ltac:(rewrite E; discriminate) NN Pos) as (m & M & Em).
-        apply f_close_sound in H. rewrite M in H. destruct H as [S N]. split; [exact S|].
-        eapply obs_near_eq; [exact Em | reflexivity | exact N].
-  - cbn [orb] in H. unfold sample_mean in H. cbn [s_xs s_ws] in H.
+    + apply f_close_sound in H. exact H.
+    + rewrite <- E in *. assert (Hx : xs <> []) by (rewrite E; discriminate).
+      apply f_close_sound in H. pose proof (sample_mean_nan_iff xs w sorted Hx) as NI.
+      destruct (sample_mean (mkSample xs (Some w) sorted)) as [|m|] eqn:M.
+      * destruct H as [S N]. split; [exact S|]. split; [intros _; exact N|].
+        intros NN Pos. exfalso. rewrite (proj1 NI eq_refl) in Pos. lra.
+      * destruct H as [S N]. split; [exact S|]. split.
+        -- intro Z0. apply NI in Z0. discriminate.
+        -- intros NN Pos. destruct (wmean_eq xs w sorted Hx NN Pos) as (m' & M' & Em). rewrite M in M'. injection M' as <-.
+           eapply obs_near_eq; [exact Em | reflexivity | exact N].
+      * exfalso. rewrite (sample_mean_weighted xs w sorted Hx) in M.
+        destruct (Qeq_bool (snd (wmean_loop (combine xs w) 0 0)) 0); discriminate.
+  - unfold sample_mean in H. cbn [s_xs s_ws] in H.
     assert (H' : f_close (tol_mean xs) (mean xs) st o = true) by (destruct xs; exact H).
     exact (mean_sound xs _ st o H').
 Qed.
@@ -642,9 +649,10 @@ Definition geo_ok (xs : list Q) (o : xreal) : Prop :=
      exists g, o = XFin g /\ 0 < g /\
        ((length xs <= 64)%nat -> Qabs (Qpw g (length xs) - Qprod xs) <= geo_rel (length xs) * Qprod xs) /\
        ((64 < length xs)%nat -> geo_bracket_ok xs g)).
-(* Sample.GeoMean; weighted: through an integer power g^D = prod x_i^e_i with e_i / D = w_i / W when the lcm D of the
-   reduced denominators of the w_i / W is <= 64, else only the bracket; not compared when a non-positive value carries
-   weight (outside the property) or the total weight is 0 *)
+(* Sample.GeoMean; weighted (non-negative weights, one per value): NaN exactly when a value <= 0 carries weight
+   (wnonpos) or nothing carries weight (total weight 0) — a non-positive value of weight zero is ignored —; otherwise a
+   positive g, through an integer power g^D = prod x_i^e_i with e_i / D = w_i / W when the lcm D of the reduced
+   denominators of the w_i / W is <= 64, else only the bracket *)
 Definition sgeo_ok (xs : list Q) (ws : option (list Q)) (st : Z) (o : xreal) : Prop :=
   match ws with
   | None => st = 0%Z /\ geo_ok xs o
@@ -652,10 +660,11 @@ Definition sgeo_ok (xs : list Q) (ws : option (list Q)) (st : Z) (o : xreal) : P
       match xs with
       | [] => st = 0%Z /\ o = XNaN
       | _ => length w = length xs -> Forall (fun v => 0 <= v) w ->
-             (forall x v, In (x, v) (combine xs w) -> x <= 0 -> v == 0) ->
-             (exists v, In v w /\ ~ v == 0) ->
-             st = 0%Z /\ exists g, o = XFin g /\ 0 < g /\
-               (wgeo_power_ok xs w g \/ geo_bracket_ok (used (combine xs w)) g)
+             st = 0%Z /\
+             (wnonpos (combine xs w) \/ wsum_w (combine xs w) == 0 -> o = XNaN) /\
+             (~ wnonpos (combine xs w) -> 0 < wsum_w (combine xs w) ->
+                exists g, o = XFin g /\ 0 < g /\
+                  (wgeo_power_ok xs w g \/ geo_bracket_ok (used (combine xs w)) g))
       end
   end.
 
@@ -703,38 +712,30 @@ Lemma map_snd_combine : forall (xs ws : list Q), length ws = length xs -> map sn
 Proof. induction xs as [|x xs IH]; intros [|w ws] L; cbn in *; try discriminate; try reflexivity. rewrite IH by lia. reflexivity. Qed.
 
 Lemma sgeo_sound xs ws sorted st o :
-  negb ((if (match ws with Some w => existsb (fun p => Qle_bool (fst p) 0 && negb (Qeq_bool (snd p) 0)) (combine xs w) | None => false end)
-            || (match ws with Some w => forallb (fun w => Qeq_bool w 0) w && negb (length xs =? 0)%nat | None => false end)
-         then 3%Z else g_check xs (sample_geomean (mkSample xs ws sorted)) st o) =? 2)%Z = true ->
-  sgeo_ok xs ws st o.
+  negb (g_check xs (sample_geomean (mkSample xs ws sorted)) st o =? 2)%Z = true -> sgeo_ok xs ws st o.
 Proof.
   intro H. unfold sgeo_ok. destruct ws as [w|].
   - destruct xs as [|x t] eqn:E.
-    + cbn in H. breflect. unfold g_check in H. cbn in H. rewrite Bool.andb_false_r in H.
+    + breflect. unfold g_check in H. cbn in H.
       destruct ((st =? 0)%Z && is_nan o) eqn:B; [|congruence]. breflect. split; [assumption | now apply is_nan_true].
     + rewrite <- E in *. assert (Hx : xs <> []) by (rewrite E; discriminate).
-      intros L Fw NP NZ.
-      assert (B1 : existsb (fun p => Qle_bool (fst p) 0 && negb (Qeq_bool (snd p) 0)) (combine xs w) = false).
-      { destruct (existsb _ _) eqn:B; [|reflexivity]. exfalso. apply existsb_exists in B. destruct B as ([x' v] & I & B).
-        cbn [fst snd] in B. breflect.
-        specialize (NP x' v I H0). apply Qeq_bool_iff in NP. congruence. }
-      assert (B2 : forallb (fun w => Qeq_bool w 0) w = false).
-      { destruct (forallb _ w) eqn:B; [|reflexivity]. exfalso. destruct NZ as (v & I & N). rewrite forallb_forall in B.
-        apply N. apply Qeq_bool_iff. apply B. exact I. }
-      rewrite B1, B2 in H. cbn [orb andb] in H. breflect.
-      assert (SG : exists cs, sample_geomean (mkSample xs (Some w) sorted) = GExp cs).
-      { unfold sample_geomean. cbn [s_xs s_ws]. rewrite E. eexists. reflexivity. }
-      destruct SG as (cs & SG). rewrite SG in H.
-      pose proof (nonneg_combine xs w Fw) as NN. pose proof (wsum_w_pos xs w L Fw NZ) as WP.
-      pose proof (sample_geomean_coeffs xs w sorted cs Hx NN SG) as FC. rewrite (map_snd_combine xs w L) in FC.
-      unfold g_check in H.
-      destruct (st =? 0)%Z eqn:S0; [|congruence]. apply Z.eqb_eq in S0. split; [exact S0|].
-      destruct o as [| |g]; try (exfalso; apply H; reflexivity).
-      pose proof (coeffs_nonneg cs w _ WP Fw FC) as Fc.
-      destruct (geo_check_sound xs cs g Fc H) as [P [Q|Q]]; exists g; (split; [reflexivity|]); (split; [exact P|]).
-      * left. eapply power_weighted; [exact WP | symmetry; apply Qsum_combine_snd; exact L | exact FC | exact Q].
-      * right. rewrite <- (used_coeffs xs cs w _ WP FC). exact Q.
-  - cbn [orb] in H. assert (SG : sample_geomean (mkSample xs None sorted) = geomean xs).
+      intros L Fw. breflect.
+      pose proof (nonneg_combine xs w Fw) as NN.
+      pose proof (sample_geomean_nan_iff xs w sorted Hx NN) as NI.
+      destruct (sample_geomean (mkSample xs (Some w) sorted)) as [|cs] eqn:SG.
+      * unfold g_check in H. destruct ((st =? 0)%Z && is_nan o) eqn:B; [|congruence]. breflect.
+        apply is_nan_true in H1. split; [assumption|]. split; [intros _; exact H1|].
+        intros NP WP. exfalso. destruct (proj1 NI eq_refl) as [C|C]; [contradiction | rewrite C in WP; lra].
+      * unfold g_check in H. destruct (st =? 0)%Z eqn:S0; [|congruence]. apply Z.eqb_eq in S0. split; [exact S0|].
+        split; [intro C; apply NI in C; discriminate|].
+        intros NP WP.
+        pose proof (sample_geomean_coeffs xs w sorted cs Hx NN SG) as FC. rewrite (map_snd_combine xs w L) in FC.
+        destruct o as [| |g]; try (exfalso; apply H; reflexivity).
+        pose proof (coeffs_nonneg cs w _ WP Fw FC) as Fc.
+        destruct (geo_check_sound xs cs g Fc H) as [P [Q|Q]]; exists g; (split; [reflexivity|]); (split; [exact P|]).
+        -- left. eapply power_weighted; [exact WP | symmetry; apply Qsum_combine_snd; exact L | exact FC | exact Q].
+        -- right. rewrite <- (used_coeffs xs cs w _ WP FC). exact Q.
+  - assert (SG : sample_geomean (mkSample xs None sorted) = geomean xs).
     { unfold sample_geomean. cbn [s_xs s_ws]. destruct xs; reflexivity. }
     rewrite SG in H. apply geo_sound. exact H.
 Qed.
@@ -783,15 +784,26 @@ Proof.
   breflect. exact B12.
 Qed.
 
-(* the premises of smean_ok / sbounds_ok are facts of an accepted case: the weighted Mean is compared whenever some
-   weight is non-zero, Bounds always *)
-Theorem stats_ok_weighted sorted xs ws o : stats_ok sorted true xs ws o -> xs <> [] ->
-  (exists w, In w ws /\ ~ w == 0) ->
-  sm_st o = 0%Z /\ obs_near (tol_wmean xs) (wmean_def (combine xs ws)) (sm_mean o).
+(* the premises of smean_ok / sgeo_ok / sbounds_ok are facts of an accepted case: every weighted Mean and GeoMean is
+   compared: NaN when every weight is zero, GeoMean NaN when a value <= 0 carries weight *)
+Lemma allzero_wsum' : forall (xs ws : list Q), (forall v, In v ws -> v == 0) -> wsum_w (combine xs ws) == 0.
 Proof.
-  intros S Hx Hw. unfold stats_ok in S. cbv zeta in S. destruct S as (HL & _ & _ & _ & _ & _ & _ & SM & _).
-  destruct (HL eq_refl) as [L F]. cbn [ows smean_ok] in SM. destruct xs as [|x t]; [congruence|].
-  apply SM; [apply nonneg_combine; exact F | apply wsum_w_pos; assumption].
+  intros xs ws H. apply allzero_wsum. apply forallb_forall. intros v Hv. apply Qeq_bool_iff. apply H. exact Hv.
+Qed.
+
+Theorem stats_ok_weighted sorted xs ws o : stats_ok sorted true xs ws o -> xs <> [] ->
+  sm_st o = 0%Z /\ sg_st o = 0%Z /\
+  ((forall v, In v ws -> v == 0) -> sm_mean o = XNaN /\ sg_geo o = XNaN) /\                    (* every weight zero *)
+  ((exists x v, In (x, v) (combine xs ws) /\ x <= 0 /\ ~ v == 0) -> sg_geo o = XNaN) /\       (* a value <= 0 carries weight *)
+  ((exists v, In v ws /\ ~ v == 0) -> obs_near (tol_wmean xs) (wmean_def (combine xs ws)) (sm_mean o)).
+Proof.
+  intros S Hx. unfold stats_ok in S. cbv zeta in S. destruct S as (HL & _ & _ & _ & _ & _ & _ & SM & _ & _ & SG & _).
+  destruct (HL eq_refl) as [L F]. cbn [ows smean_ok sgeo_ok] in SM, SG. destruct xs as [|x t] eqn:E; [congruence|]. rewrite <- E in *.
+  destruct SM as (M0 & M1 & M2). destruct (SG L F) as (G0 & G1 & _).
+  split; [exact M0|]. split; [exact G0|]. split; [|split].
+  - intro Z. pose proof (allzero_wsum' xs ws Z) as W0. split; [apply M1; exact W0 | apply G1; right; exact W0].
+  - intro NP. apply G1. left. exact NP.
+  - intro NZ. apply M2; [apply nonneg_combine; exact F | apply wsum_w_pos; assumption].
 Qed.
 Theorem stats_ok_bounds sorted hasw xs ws o : stats_ok sorted hasw xs ws o ->
   bounds_ok (if hasw then used (combine xs ws) else xs) (s_bmin o) (s_bmax o).
@@ -804,11 +816,14 @@ Proof.
 Qed.
 
 Theorem stats_ok_closed sorted hasw xs ws o : stats_ok sorted hasw xs ws o ->
-  (hasw = true -> xs <> [] -> (exists w, In w ws /\ ~ w == 0) ->
-     sm_st o = 0%Z /\ obs_near (tol_wmean xs) (wmean_def (combine xs ws)) (sm_mean o)) /\
+  (hasw = true -> xs <> [] ->
+     sm_st o = 0%Z /\ sg_st o = 0%Z /\
+     ((forall v, In v ws -> v == 0) -> sm_mean o = XNaN /\ sg_geo o = XNaN) /\
+     ((exists x v, In (x, v) (combine xs ws) /\ x <= 0 /\ ~ v == 0) -> sg_geo o = XNaN) /\
+     ((exists v, In v ws /\ ~ v == 0) -> obs_near (tol_wmean xs) (wmean_def (combine xs ws)) (sm_mean o))) /\
   bounds_ok (if hasw then used (combine xs ws) else xs) (s_bmin o) (s_bmax o).
 Proof.
-  intros S. split; [intros -> Hx Hw; exact (stats_ok_weighted sorted xs ws o S Hx Hw) | exact (stats_ok_bounds _ _ _ _ _ S)].
+  intros S. split; [intros -> Hx; exact (stats_ok_weighted sorted xs ws o S Hx) | exact (stats_ok_bounds _ _ _ _ _ S)].
 Qed.
 
 Lemma list_Qeq_sound : forall a b, list_Qeq a b = true -> Forall2 Qeq a b.
@@ -975,19 +990,23 @@ Proof.
     split; [exists s; split; [reflexivity | split; [eapply swf_nth; eassumption | apply query_ok_sound; exact Qk]] | eapply IH; [exact W' | exact R]].
 Qed.
 
-(* for a legal Sample the premises of the weighted-Mean and Bounds clauses of a query hold *)
+(* for a legal Sample the premises of the weighted-Mean and Bounds clauses of a query hold: the weighted Mean is NaN
+   when every weight is zero and within tolerance of sum(w x)/sum(w) otherwise *)
 Theorem query_closed s mst m sm w b1 b2 vst v : swf s -> query_obs_ok s mst m sm w b1 b2 vst v ->
   match s_ws s with
-  | Some ws => (s_xs s <> [] -> (exists w0, In w0 ws /\ ~ w0 == 0) ->
-                  mst = 0%Z /\ obs_near (tol_wmean (s_xs s)) (wmean_def (combine (s_xs s) ws)) m) /\
+  | Some ws => (s_xs s <> [] ->
+                  mst = 0%Z /\ ((forall w0, In w0 ws -> w0 == 0) -> m = XNaN) /\
+                  ((exists w0, In w0 ws /\ ~ w0 == 0) -> obs_near (tol_wmean (s_xs s)) (wmean_def (combine (s_xs s) ws)) m)) /\
                bounds_ok (used (combine (s_xs s) ws)) b1 b2
   | None => bounds_ok (s_xs s) b1 b2
   end.
 Proof.
   intros [W S] (QM & _ & _ & QB & _). destruct s as [xs [ws|] sorted]; cbn [s_xs s_ws s_sorted] in *.
   - destruct W as [L F]. split.
-    + intros Hx Hw. unfold smean_ok in QM. destruct xs as [|x t]; [congruence|].
-      apply QM; [apply nonneg_combine; exact F | apply wsum_w_pos; assumption].
+    + intros Hx. unfold smean_ok in QM. destruct xs as [|x t] eqn:E; [congruence|]. rewrite <- E in *.
+      destruct QM as (M0 & M1 & M2). split; [exact M0|]. split.
+      * intro Z. apply M1. apply allzero_wsum'. exact Z.
+      * intro NZ. apply M2; [apply nonneg_combine; exact F | apply wsum_w_pos; assumption].
     + apply QB; [exact S | exact L].
   - apply QB. exact S.
 Qed.
